@@ -82,6 +82,7 @@ type Report struct {
 	Samples        []map[string]interface{}
 	Wall           time.Duration
 	RecoveredPanics int
+	BranchesKeptOnUnknown int
 }
 
 func newReport() *Report {
@@ -98,6 +99,7 @@ func (r *Report) merge(o *Report) {
 	r.Forks += o.Forks
 	r.Steps += o.Steps
 	r.RecoveredPanics += o.RecoveredPanics
+	r.BranchesKeptOnUnknown += o.BranchesKeptOnUnknown
 	if o.MaxUnwindSeen > r.MaxUnwindSeen {
 		r.MaxUnwindSeen = o.MaxUnwindSeen
 	}
@@ -609,7 +611,7 @@ func (e *Engine) choose(conds []*smt.Term, exhaustive bool) int {
 				continue
 			}
 		}
-		r, m := e.sol.Check(e.pc, c, e.ndTerms, true)
+		r, m := e.sol.CheckT(e.pc, c, e.ndTerms, true, 3000)
 		switch r {
 		case smt.Sat:
 			feas = append(feas, i)
@@ -618,8 +620,10 @@ func (e *Engine) choose(conds []*smt.Term, exhaustive bool) int {
 				e.lastModelPC = len(e.pc)
 			}
 		case smt.Unknown:
-			// keep the branch (sound for violation finding), but the run is inconclusive
-			e.rep.Inconclusive = append(e.rep.Inconclusive, "solver unknown on branch feasibility at "+e.where())
+			// keep the branch: exploring a possibly infeasible path is sound for "holds"
+			// verdicts (its obligations are still discharged) and a counterexample found on
+			// it is only reported after native replay
+			e.rep.BranchesKeptOnUnknown++
 			feas = append(feas, i)
 		}
 	}
